@@ -42,6 +42,7 @@ def resolve_files(scenario):
                 need.add(v[1:])
     if scenario.get("tree"):
         walk(scenario["tree"])
+    need |= set(v for v in (scenario.get("named") or {}).values() if v in files or v in SHARED["files"])
     todo = list(need)
     while todo:
         fid = todo.pop()
